@@ -330,6 +330,13 @@ def run_deep(unit, progress):
             detail = {"value": v}
         else:
             raise lang.HarnessFault(shape)
+    except lang.HarnessFault:
+        raise
+    except Exception as e:
+        # value() of a finite acyclic program neither returned nor left every awaited task computed: it raised
+        ok = False
+        bad.append(("computation-raised", lang.exc_desc(e)))
+        detail = {"raised": repr(e)[:200]}
     finally:
         rt.detach()
     res["evaluations"] = 1
